@@ -6,7 +6,7 @@ CONSTANTS
   K2 = 1
   K3 = 0
   NVer = 3
-  ReqNames = {"1", "1f", "2f", "1_2", "1f_2", "1f_2f", "1f_1", "1_1f", "1f_1f", "3f_2f_1f"}
+  ReqNames = {"1", "1f", "1_2", "1f_2", "1f_2f", "1f_1", "1_1f"}
   Emit = TRUE
 INVARIANT Inv
 CHECK_DEADLOCK FALSE
